@@ -295,6 +295,7 @@ def run(facts):
                 res.bad(key, b.loc(x["bi"]), x["text"])
     returns_only_when_done(res, facts)
     getters_move_once(res, facts)
+    slice_cursor_swapped_after_check(res, facts)
     res.floor("try_* readers", n, 60)
     res.floor("panic sites with a TryGetError", n_pan, 3)
     return res
@@ -384,3 +385,68 @@ def getters_move_once(res, facts):
         else:
             res.ok(key, b.loc(), "%d consuming call(s), at most one per path (or guarded)" % len(moves), nontrivial=True)
     res.floor("panicking getters of Buf", n, 6)
+
+
+def slice_cursor_swapped_after_check(res, facts):
+    """the slice cursors (`impl BufMut for &mut [u8]` / `&mut [MaybeUninit<u8>]`) move by swapping themselves out: `mem::replace(self, &mut [])
+    .split_at_mut(n)` and storing the tail back.  Between the swap and the store the cursor is empty, and `split_at_mut(n)` panics for n > len -
+    so the swap must come after the length check (`n <= self.len()` dominates it); otherwise a write that is refused leaves the caller's cursor
+    empty (C11: a fixed-size target loses exactly the bytes written; C13: a contract panic leaves the state as it was)."""
+    from .flow import canon, ExprBuilder, walk
+    from .logic import Ctx
+    n = 0
+    n_m = 0
+    for im in facts.impls:
+        if im.get("trait") != "buf::buf_mut::BufMut" or not im["self_ty"].startswith("&mut ["):
+            continue
+        for it in im["items"]:
+            b = facts.by_did.get(it.get("did"))
+            if b is None:
+                continue
+            n_m += 1
+            eb = ExprBuilder(b, facts, inline=False)
+            for bi, t in b.calls():
+                fn = callee(t)
+                if fn is None or b.blocks[bi]["cleanup"] or (fn.get("res") or fn)["path"] not in ("core::mem::replace", "core::mem::take") or not t["args"]:
+                    continue
+                a0 = canon(eb.operand(t["args"][0], (bi, len(b.blocks[bi]["stmts"]))))
+                while isinstance(a0, tuple) and a0 and a0[0] in ("ref", "deref"):
+                    a0 = a0[1]
+                if a0 != ("param", 1):
+                    continue
+                n += 1
+                key = "%s::%s|cursor swapped out after the length check" % (im["self_ty"], it["name"])
+                ok = False
+                for r in Ctx(b, bi, facts).rels:
+                    if r and r[0] in ("le", "lt") and len(r) > 2 and isinstance(r[2], tuple):
+                        y = canon(r[2])
+                        if isinstance(y, tuple) and y and y[0] in ("call", "un") and (str(y[1]).rsplit("::", 1)[-1] == "len" or y[1] == "PtrMetadata") and any(z == ("param", 1) for z in walk(y)):
+                            ok = True
+                if not ok:
+                    # the check may sit in a helper that panics (`check_advance(self.len(), cnt)`): read the method with its helpers spliced in
+                    from .inline import views
+                    for ib in views(facts, b):
+                        ebi = ExprBuilder(ib, facts, inline=False)
+                        for bj, tj in ib.calls():
+                            fj = callee(tj)
+                            if fj is None or ib.blocks[bj]["cleanup"] or (fj.get("res") or fj)["path"] not in ("core::mem::replace", "core::mem::take") or not tj["args"]:
+                                continue
+                            aj = canon(ebi.operand(tj["args"][0], (bj, len(ib.blocks[bj]["stmts"]))))
+                            while isinstance(aj, tuple) and aj and aj[0] in ("ref", "deref"):
+                                aj = aj[1]
+                            if aj != ("param", 1):
+                                continue
+                            for r in Ctx(ib, bj, facts).rels:
+                                if r and r[0] in ("le", "lt") and len(r) > 2 and isinstance(r[2], tuple):
+                                    y = canon(r[2])
+                                    if isinstance(y, tuple) and y and y[0] in ("call", "un") and (str(y[1]).rsplit("::", 1)[-1] == "len" or y[1] == "PtrMetadata") and any(z == ("param", 1) for z in walk(y)):
+                                        ok = True
+                        if ok:
+                            break
+                if ok:
+                    res.ok(key, b.loc(bi), "n <= self.len() is established before the cursor is swapped out", nontrivial=True)
+                else:
+                    res.bad(key, b.loc(bi), "the cursor is swapped out (mem::replace(self, ..)) where no `n <= self.len()` check has passed: the split that follows panics for an "
+                                            "over-long request and leaves the caller's cursor empty")
+    # (how a cursor moves is a matter of style - mem::replace + split_at_mut, mem::take + index - so the floor counts the methods scanned, not the swaps)
+    res.floor("methods of the slice BufMut impls scanned for cursor swaps", n_m, 6)
